@@ -21,7 +21,7 @@
    powspace / norm_p (libm pow) -- tied by tolerance and searched on every run. *)
 From Coq Require Import List Arith Reals Permutation Sorted QArith Qcanon.
 From OV Require Import Base.Panic Base.Arith Model.Complex Model.Vector Model.VecOps
-                       Proofs.Vector Proofs.VectorR Proofs.VectorQc Inst.QcInst.
+                       Proofs.Vector Proofs.VectorR Proofs.VectorQc Proofs.VectorCx Inst.QcInst.
 Import ListNotations.
 Local Open Scope nat_scope.
 
@@ -122,6 +122,20 @@ Check vdiv_spec : forall (F : SArith) (FL : FieldLaws F) (v : list F) (s : F),
   (s = zero -> v <> [] -> vdiv v s = Panic DivZero) /\
   (v = [] -> vdiv v s = Ok []).
 Print Assumptions vdiv_spec.
+
+(* ---------------------------------------------------------------- complex vectors *)
+Theorem conj_real_spec : forall (F : SArith), RingLaws F -> forall (v : list (cplx F)),
+  length (vconj v) = length v /\ length (vreal v) = length v /\
+  (forall i d, i < length v -> nth i (vconj v) (conj d) = conj (nth i v d)) /\
+  (forall i d, i < length v -> nth i (vreal v) (re d) = re (nth i v d)) /\
+  vconj (vconj v) = v /\ vreal (vconj v) = vreal v.
+Proof. intros F RL v. exact (conj_real_spec_lemma RL v). Qed.
+Check conj_real_spec : forall (F : SArith), RingLaws F -> forall (v : list (cplx F)),
+  length (vconj v) = length v /\ length (vreal v) = length v /\
+  (forall i d, i < length v -> nth i (vconj v) (conj d) = conj (nth i v d)) /\
+  (forall i d, i < length v -> nth i (vreal v) (re d) = re (nth i v d)) /\
+  vconj (vconj v) = v /\ vreal (vconj v) = vreal v.
+Print Assumptions conj_real_spec.
 
 (* ---------------------------------------------------------------- range reductions *)
 Theorem sum_slice_spec : forall (A : Arith) (v : list A) s e,
